@@ -99,7 +99,17 @@ def run_case(cid, rng, workdir):
         if key.startswith("atom-") and _is_replace_artifact(key, msg, ref):
             continue
         violation(res, key + suffix, msg, PC.witness(case))
-    # captured molecule after MapToMolecule: the disconnected copy must already be verbatim
+    # exclusions written inside a block: the generated ones are added to them, they never replace them
+    renum = ev["renum"]
+    for (atoms, _params, _cond), cnt in ref["inter"].get("exclusions", {}).items():
+        if not all(a in renum for a in atoms):
+            continue
+        bump(res, "block_exclusions_checked")
+        for o in atoms[1:]:
+            pair = frozenset((renum[atoms[0]], renum[o]))
+            if len(pair) == 2 and pair not in obs["excl_pairs"]:
+                violation(res, "block-exclusion-lost" + suffix, "the exclusion of atoms %s defined in a block is not in the "
+                          "written [ exclusions ]" % sorted(pair), PC.witness(case))
     return res
 
 
